@@ -803,7 +803,8 @@ def unit_find_operators(case="mixed", timeout_ms=10000):
 def unit_number_operator(kind, timeout_ms=10000):
     """NumberOperator.doit / _eval_power for kind in BosonOp | FermionOp | SigmaOpBase | LadderOp:
       doit:  N = c^+ c for bosons and fermions (the adjoint on the LEFT), (sigma_z + 1) / 2 for a spin (= sigma_+ sigma_-, the occupation of the state that SigmaMinus lowers), itself for a ladder mode;
-      power: a non-zero integer power of a fermionic or spin number operator is the operator itself (idempotent); everything else is left to sympy (super()._eval_power)."""
+      power: a POSITIVE integer power of a fermionic or spin number operator is the operator itself (idempotent; the operator is singular, so negative powers are not simplified);
+             everything else is left to sympy (super()._eval_power)."""
     def harness(eng):
         NAME = T("mode-name")
 
@@ -856,17 +857,14 @@ def unit_number_operator(kind, timeout_ms=10000):
             eng.oblige("doit:number-is-adjoint-times-operator-of-the-same-mode", z3.BoolVal(bool(ok)), detail=repr(res))
         # power
         for integer in (True, False):
-            for zero in (True, False):
+            for positive in (True, False, None):
                 class Exp(Model):
                     def m_getattr(s, e, attr):
                         if attr == "is_integer":
                             return integer
+                        if attr == "is_positive":
+                            return positive
                         raise Unsupported(f"exp.{attr}")
-
-                    def m_binop(s, e, op, other, reflected):
-                        if isinstance(op, ast.Eq) and other == 0:
-                            return zero
-                        return NotImplemented
                 ex = Exp()
                 sup = []
 
@@ -877,8 +875,8 @@ def unit_number_operator(kind, timeout_ms=10000):
                         raise Unsupported(f"super().{attr}")
                 eng.globals["super"] = Builtin("super", lambda e: Super())
                 r = eng.call(Closure(frontend.find(MODULE, "NumberOperator._eval_power"), Env(None, {}), "_eval_power"), [me, ex], {})
-                idem = integer and not zero and kind not in ("BosonOp", "LadderOp")
-                eng.oblige(f"power:idempotent-iff-fermion-or-spin-and-non-zero-integer-exponent[integer={integer},zero={zero}]",
+                idem = integer and positive is True and kind not in ("BosonOp", "LadderOp")
+                eng.oblige(f"power:idempotent-iff-fermion-or-spin-and-POSITIVE-integer-exponent[integer={integer},positive={positive}]",
                            z3.BoolVal((r is me and not sup) if idem else (isinstance(r, T) and r.head == "sympy-power" and sup == [ex])))
     return run_unit(f"number_ordered_form:NumberOperator.doit/_eval_power[{kind}]", harness,
                     functions=[(MODULE, "NumberOperator.doit"), (MODULE, "NumberOperator._eval_power")], timeout_ms=timeout_ms)
